@@ -118,11 +118,11 @@ impl Property for C06 {
         "C06"
     }
     fn rule(&self) -> &'static str {
-        "case = valid instance x 1..8 (sample id, in-bound state) pairs (arbitrary u64 ids, equal states shared or in separate entries or via add_sample, states built to collide in objective/constraint values, states omitting irrelevant variables, states still carrying a stale value for a fixed variable) x grouping; \
+        "case = valid instance x 1..8 (sample id, in-bound state) pairs (arbitrary u64 ids, equal states shared or in separate entries or via add_sample, states built to collide in objective/constraint values, states omitting irrelevant variables, states still carrying a stale value for a fixed variable, states carrying values for ids that are no variables at all, variables fixed earlier at a value outside their bound) x grouping; \
          oracle = Instance::evaluate of each state alone (tied to the reference model by C05) + key-set and re-grouping invariance; non-trivial = >=2 ids and (shared entry or duplicate state across entries or equal values from different states); distinct = sha256(instance, pairs, grouping)"
     }
     fn required_labels(&self) -> Vec<String> {
-        ["multi-id-entry", "dup-state-separate-entries", "value-collision", "omits-irrelevant", "omits-different-subsets", "add_sample", "n>=4", "dependency", "removed-constraint", "fixed-variable", "state-has-stale-value-of-fixed-variable", "unset-oneof", "big-linear-function"].iter().map(|s| s.to_string()).collect()
+        ["multi-id-entry", "dup-state-separate-entries", "value-collision", "omits-irrelevant", "omits-different-subsets", "add_sample", "n>=4", "dependency", "removed-constraint", "fixed-variable", "state-has-stale-value-of-fixed-variable", "unset-oneof", "big-linear-function", "state-has-foreign-id", "fixed-value-outside-its-bound"].iter().map(|s| s.to_string()).collect()
     }
     fn cases(&self, tier: Tier) -> usize {
         match tier {
@@ -147,9 +147,14 @@ impl Property for C06 {
         let masks: Vec<u16> = (0..8).map(|_| t.u16()).collect();
         // which states still carry an (in-bound, stale) value for a variable that an earlier partial evaluation fixed
         let stale_mask = if t.p(96) { t.byte() } else { 0 };
+        // which states carry values for ids that are no variables of the instance at all (one or two of them), as a state
+        // produced for a reformulated copy of the model does; single evaluation accepts and reports them
+        let foreign_mask = if t.p(80) { t.byte() } else { 0 };
+        let foreign_two = t.coin();
         let big = if t.p(8) { Some((*t.pick(&SIZES), t.byte() as u64)) } else { None };
         let mut cfg = InstCfg::new(regime);
         cfg.tolerance_candidates = true;
+        cfg.fixed_out_of_bound = true;
         // a present function message whose oneof is unset evaluates to zero (C01) -- for every sample alike
         cfg.func.allow_unset = true;
         let mut gi = gen_instance(t, &cfg, ctx);
@@ -182,6 +187,13 @@ impl Property for C06 {
                     }
                     st.entries.insert(fx, x);
                 }
+            }
+            if (foreign_mask >> i) & 1 == 1 {
+                st.entries.insert(987_654_321, 1.0);
+                if foreign_two {
+                    st.entries.insert(987_654_322, -2.0);
+                }
+                ctx.label("state-has-foreign-id");
             }
             pairs.push((ids[i], st));
         }
@@ -242,7 +254,16 @@ impl Property for C06 {
         let mut singles: Vec<(u64, v1::Solution)> = vec![];
         for (id, st) in &pairs {
             match inst.evaluate(st) {
-                Ok((sol, _)) => singles.push((*id, sol)),
+                Ok((mut sol, _)) => {
+                    // A value given for an id that is no variable of the instance is echoed by the single evaluation;
+                    // a sample set has no place to keep it (its tables are per decision variable). The statement
+                    // compares "variable values": the foreign ids are left out of the comparison.
+                    if let Some(st) = sol.state.as_mut() {
+                        st.entries.remove(&987_654_321);
+                        st.entries.remove(&987_654_322);
+                    }
+                    singles.push((*id, sol))
+                }
                 Err(e) => {
                     // generator produced a state the single path rejects (should not happen)
                     ctx.label("single-evaluate-rejected");
